@@ -790,7 +790,7 @@ func (ev *Ev) call(n *ast.CallExpr) Val {
 	case "imp":
 		need(2)
 		lhs := tm(arg(0))
-		if lhs == "false" {
+		if lhs == "false" || ev.cur.knows(sNot(lhs)) {
 			return boolV("true") // short-circuit: the consequent may not even be well defined (nil result on this path)
 		}
 		return boolV(sImp(lhs, tm(arg(1))))
@@ -894,6 +894,16 @@ func (ev *Ev) call(n *ast.CallExpr) Val {
 			ex = append(ex, exprString(a))
 		}
 		return boolV(ev.sameExcept(x.flat(ev.cur, ev.derefAll(arg(0))), x.flat(ev.cur, ev.derefAll(arg(1))), ex))
+	}
+	if lv, ok := ev.now.lets[fname]; ok {
+		if o, isO := lv.(Opq); isO && strings.HasPrefix(o.Why, "fn:") {
+			// a function symbol introduced by a schema (walkPos<k>: position of a key in the k-th walk's listing)
+			var ts []string
+			for i := range n.Args {
+				ts = append(ts, tm(arg(i)))
+			}
+			return intV(sApp(strings.TrimPrefix(o.Why, "fn:"), ts...))
+		}
 	}
 	if wv, ok := ev.lookupScope(fname); ok {
 		if wf, isW := wv.(WalkFn); isW {
